@@ -491,8 +491,13 @@ class Session:
         What a long-running client does between calls: every long-lived handle looks at its containers and link
         lists (length, iteration, membership by id), so whatever the library caches on handle objects is warm.
         """
+        alive = self.alive_ids()
         for store in (self.handles, self.handles_b):
             for num, h in list(store.items()):
+                # handles of deleted entities are not used any more (what they do is not covered by any property)
+                if self.uuid.get(num) not in alive:
+                    store.pop(num, None)
+                    continue
                 kind = self.meta[num][0]
                 names = [c for c, _ in CONTAINERS.get(kind, ())] + list(LISTS.get(kind, ()))
                 for cname in names:
@@ -729,12 +734,33 @@ class Session:
             return Outcome(False, exc)
         return Outcome(True)
 
-    def _reachable(self, num):
+    def alive_ids(self):
+        """Ids of every entity reachable from the file, found with fresh handles only (top-down)."""
+        ids = set()
+
+        def walk(e, kind):
+            try:
+                ids.add(e.id)
+            except Exception:  # noqa
+                return
+            for cname, ckind in CONTAINERS.get(kind, ()):
+                try:
+                    for c in getattr(e, cname):
+                        walk(c, ckind)
+                except Exception:  # noqa
+                    pass
         try:
-            self.obj(num, fresh=True)
-            return True
+            for b in self.nf.blocks:
+                walk(b, "block")
+            for sec in self.nf.sections:
+                walk(sec, "section")
         except Exception:  # noqa
-            return False
+            pass
+        return ids
+
+    def _reachable(self, num, alive=None):
+        alive = self.alive_ids() if alive is None else alive
+        return (self.uuid or {}).get(num) in alive
 
     def bind_copy(self, act, returned):
         """Registers the objects a successful copy created: same order as the specification numbers them."""
@@ -746,7 +772,8 @@ class Session:
                     return True
                 x = self.meta[x][1]
             return False
-        sub = sorted(x for x in self.meta if in_sub(x) and x < act["new"] and self._reachable(x))
+        alive = self.alive_ids()
+        sub = sorted(x for x in self.meta if in_sub(x) and x < act["new"] and self._reachable(x, alive))
         newnum = {x: act["new"] + i for i, x in enumerate(sub)}
         self.copy_returned = None
         for x in sub:
